@@ -589,6 +589,23 @@ func main() {
 				func() { root.Define("r", int64(4)); root.Define("q", int64(5)); root.Delete("q") },
 				func() { leaf.DeepCopy(); mid.Copy() },
 				func() { leaf.DefineGlobal("g", int64(6)); leaf.Get("g") },
+				// the type tables and module lookups under the same regime
+				func() { mid.DefineType("T", int64(0)); leaf.DefineType("U", ""); root.DefineGlobalType("G", 1.5) },
+				func() { leaf.Type("T"); leaf.Type("G"); mid.GetTypeSymbols(); leaf.GetTypeSymbols() },
+				func() { _ = leaf.String(); mid.Copy(); leaf.DeepCopy() }, // (String of a scope that holds a MODULE formats that module's tables without its lock: not an operation the statement lists)
+				func() {
+					mid.NewModule("mod")
+					leaf.GetEnvFromPath([]string{"mod"})
+					leaf.GetEnvFromPath([]string{"mod", "sub"})
+				},
+				func() {
+					m, err := mid.GetEnvFromPath([]string{"mod"})
+					if err == nil {
+						m.Define("x", int64(1))
+						m.NewModule("sub")
+					}
+				},
+				func() { mid.Define("mod", int64(3)); mid.Delete("mod"); leaf.GetEnvFromPath([]string{"mod"}) },
 			}
 			for _, f := range work {
 				f := f
